@@ -44,6 +44,8 @@ def cxx_int(x):
     if isinstance(x, SR):
         if x.is_int:
             return x
+        if z3.is_app(x.t) and x.t.decl().kind() == z3.Z3_OP_TO_REAL:
+            return SR(x.t.arg(0))  # (int) of an integer-valued double
         st = cur()
         memo = st.ghost.setdefault("memo", {})
         key = ("trunc", z3.simplify(x.t).sexpr())
